@@ -219,5 +219,10 @@ func deadline(ttl int64) int64 {
 	if ttl <= 0 {
 		return math.MaxInt64
 	}
-	return now() + ttl
+	var n = now()
+	if ttl > math.MaxInt64-n {
+		// n+ttl would wrap to the past: so far in the future means no expiry
+		return math.MaxInt64
+	}
+	return n + ttl
 }
